@@ -17,6 +17,11 @@ struct Slot {
     since_ms: AtomicU64,
     sub: AtomicUsize,
     render: Mutex<Option<Render>>,
+    /// light-weight announcement used by the explorers: the word choices of the execution under way
+    picks: Mutex<Vec<u32>>,
+    /// what the worker is exploring (set once per scenario)
+    context: Mutex<String>,
+    light: std::sync::atomic::AtomicBool,
 }
 
 static SLOTS: Mutex<Vec<Arc<Slot>>> = Mutex::new(Vec::new());
@@ -24,7 +29,7 @@ static T0: OnceLock<Instant> = OnceLock::new();
 
 thread_local! {
     static MY: Arc<Slot> = {
-        let s = Arc::new(Slot { since_ms: AtomicU64::new(0), sub: AtomicUsize::new(0), render: Mutex::new(None) });
+        let s = Arc::new(Slot { since_ms: AtomicU64::new(0), sub: AtomicUsize::new(0), render: Mutex::new(None), picks: Mutex::new(Vec::new()), context: Mutex::new(String::new()), light: std::sync::atomic::AtomicBool::new(false) });
         SLOTS.lock().unwrap().push(s.clone());
         s
     };
@@ -34,8 +39,28 @@ fn now_ms() -> u64 {
     T0.get_or_init(Instant::now).elapsed().as_millis() as u64 + 1
 }
 
+/// what this worker is exploring (shown if an execution of it does not return)
+pub fn context(what: impl Into<String>) {
+    let w = what.into();
+    MY.with(|s| *s.context.lock().unwrap() = w);
+}
+
+/// announce one execution of an exploration by its word choices (cheap: no allocation in steady state)
+pub fn enter_picks(picks: impl Iterator<Item = u32>) {
+    MY.with(|s| {
+        {
+            let mut g = s.picks.lock().unwrap();
+            g.clear();
+            g.extend(picks);
+        }
+        s.light.store(true, Ordering::Relaxed);
+        s.since_ms.store(now_ms(), Ordering::Release);
+    });
+}
+
 pub fn enter(render: Render) {
     MY.with(|s| {
+        s.light.store(false, Ordering::Relaxed);
         *s.render.lock().unwrap() = Some(render);
         s.sub.store(0, Ordering::Relaxed);
         s.since_ms.store(now_ms(), Ordering::Release);
@@ -55,7 +80,12 @@ pub fn start(property: &str, tier: &str, limit: Duration) {
 
 /// `on_hang`: what to do instead of writing the evidence and exiting 1 (used by child processes,
 /// which hand the case to their parent).
+static STARTED: std::sync::atomic::AtomicBool = std::sync::atomic::AtomicBool::new(false);
+
 pub fn start_with(property: &str, tier: &str, limit: Duration, on_hang: Option<Box<dyn Fn(String, String, Value) + Send>>) {
+    if STARTED.swap(true, Ordering::SeqCst) {
+        return; // one monitor per process
+    }
     let property = property.to_string();
     let tier = tier.to_string();
     let _ = now_ms();
@@ -67,9 +97,19 @@ pub fn start_with(property: &str, tier: &str, limit: Duration, on_hang: Option<B
             let since = s.since_ms.load(Ordering::Acquire);
             if since != 0 && now.saturating_sub(since) > limit.as_millis() as u64 {
                 let sub = s.sub.load(Ordering::Relaxed);
-                let (key, what, replay) = match s.render.lock().unwrap().as_ref() {
-                    Some(r) => r(sub),
-                    None => ("hang/unknown".to_string(), "a case did not return".to_string(), Value::Null),
+                let (key, what, replay) = if s.light.load(Ordering::Relaxed) {
+                    let picks = s.picks.lock().unwrap().clone();
+                    let ctx = s.context.lock().unwrap().clone();
+                    (
+                        "hang/execution".to_string(),
+                        format!("{ctx}: the execution with word choices {picks:?} (then default words)"),
+                        serde_json::json!({"kind": "hang", "context": ctx, "choices": picks}),
+                    )
+                } else {
+                    match s.render.lock().unwrap().as_ref() {
+                        Some(r) => r(sub),
+                        None => ("hang/unknown".to_string(), "a case did not return".to_string(), Value::Null),
+                    }
                 };
                 if let Some(f) = &on_hang {
                     f(key, format!("{what} -- did not return within {} s", limit.as_secs()), replay);
